@@ -191,6 +191,26 @@ func (h) Gen(r *hlib.Rand, tier string, scale int, emit func(string)) {
 			emit("member " + hx(lo) + " " + hx(hi) + " " + hx(v))
 		}
 	}
+	// maximal exit ranges: a range that cannot be lifted to the next precision spans the tail of one digit and the
+	// head of the following one (up to 30 terms); members in its FIRST and LAST terms, at every level
+	for s := uint(0); s <= 56; s += 4 {
+		for _, base := range []int64{0, -(int64(64) << s), int64(r.U64()>>8) &^ (int64(32)<<s - 1), -(int64(r.U64()>>8) &^ (int64(32)<<s - 1))} {
+			if s >= 52 && base != 0 {
+				continue
+			}
+			lo := base + int64(1)<<s
+			hi := base + int64(30)<<s + (int64(1)<<s - 1)
+			for _, v := range []int64{lo, hi, base + int64(30)<<s, base + int64(29)<<s, base + int64(15)<<s, base + int64(16)<<s, lo - 1, hi + 1} {
+				emit("member " + hx(uint64(lo)) + " " + hx(uint64(hi)) + " " + hx(uint64(v)))
+			}
+			// and shorter tails / heads around it
+			lo2 := base + int64(1+r.Intn(14))<<s
+			hi2 := base + int64(16+r.Intn(15))<<s + (int64(1)<<s - 1)
+			for _, v := range []int64{lo2, hi2, hi2 - (int64(1)<<s - 1), lo2 + (int64(1)<<s - 1)} {
+				emit("member " + hx(uint64(lo2)) + " " + hx(uint64(hi2)) + " " + hx(uint64(v)))
+			}
+		}
+	}
 	// incrementBytes and the float end-point handling of NewNumericRangeSearcher
 	for i := 0; i < n/2; i++ {
 		l := r.Intn(6)
